@@ -68,6 +68,11 @@ class ScriptedOptimizer(Optimizer):
         log = self._ctx.backend_log if self._ctx is not None else []
         log.append({"ev": "start", "x0": x0.copy(), "n_free": int(x0.size), "config": self._config})
         for idx, entry in enumerate(self._script):
+            if self._opts.get("raise_at") == idx:
+                msg = f"simulated optimizer failure before request {idx}"
+                raise RuntimeError(msg)
+            if self._opts.get("exit_at") == idx:
+                raise SystemExit(3)
             op = entry["op"]
             pts = entry["pts"]
             if entry.get("batch"):
